@@ -2273,6 +2273,13 @@ ldb_write(ldb_t *db, ldb_batch_t *updates, const ldb_writeopt_t *options) {
 
       rc = ldb_writer_add_record(db->log, &contents);
 
+      if (rc != LDB_OK) {
+        /* A partially written record may be left in the log: anything
+           appended behind it would be dropped by recovery. Treat the
+           log as indeterminate, exactly as after a failed sync. */
+        sync_error = 1;
+      }
+
       if (rc == LDB_OK && options->sync) {
         rc = ldb_wfile_sync(db->logfile);
 
